@@ -98,7 +98,7 @@ site('MatlabWrapper.wrap_static_methods',
      loops={0: LOOP, 1: dict(LOOP, defines={'static_overload': 'ref:StaticMethod'})},
      holes=[dict(match=r'STRING_DESERIALIZE usage', key='id', count='siteCount',
                  set={'siteRole': "('string_deserialize', instantiated_class, 'deserialize', namespace_name + instantiated_class.name + '_string_deserialize', False)"}),
-            dict(match=r'varargout\{\{1\}\} = \{wrapper\}\(\{id\}, varargin', key='id', count='siteCount',
+            dict(match=r'\{varargout\}\{wrapper\}\(\{id\}, varargin', key='id', count='siteCount',
                  set={'siteRole': "(static_overload.name, instantiated_class, static_overload, namespace_name + instantiated_class.name + '_' + static_overload.name, False)"})])
 
 # ------------------------------------------------------------------ the C++ side
